@@ -410,6 +410,7 @@ def run(rep, tier):
     rep.floor("event-error overrides", c16_audit.event_error_priority_rule(rep, u), 1)
     uio = driver.load_units([common.hdr_unit("utils/io_buf.h", "utils/io_buf.h")])["utils/io_buf.h"]
     c16_audit.window_clamp_rule(rep, uio)
+    c16_audit.datagram_receiver_rule(rep, u)
     return driver.finish(
         rep, "other",
         "Static analysis of threadpool_task.c. Decided: %d registration calls agree on (event kind, record); single non-cyclic "
